@@ -3,6 +3,7 @@ import json
 from vlib import *
 
 C06_REASONS = {
+    "dial refused by the outgoing limit although below it",
     "more than two connections per peer", "incoming limit exceeded", "outgoing limit exceeded",
     "pending inbound refused below the incoming limit", "connection refused although below the limits",
 }
@@ -34,10 +35,16 @@ def mc_runs(ctx, which):
 
 def generate(ctx):
     gl = ["SPECIFICATION Spec", "VIEW GenView", "ACTION_CONSTRAINT Emit", "CHECK_DEADLOCK FALSE"]
-    sets = [("LimSmall", 2), ("LimNone", 2), ("LimTwo", 2)] if ctx.quick() else [("LimSmall", 3), ("LimMixed", 3), ("LimTwo", 3)]
+    sets = [("LimSmall", 2), ("LimNone", 2), ("LimTwo", 2), ("LimLeak", 3)] if ctx.quick() else [("LimSmall", 3), ("LimMixed", 3), ("LimTwo", 3)]
     behs, stats = [], []
+    import random
     for lim, mc in sets:
         b, g = tlc_generate(ctx, "ConnMgrMC.tla", write_cfg(ctx, "gen_%s.cfg" % lim, dict(BASE, Limits="<- " + lim, MaxCid=mc), gl), timeout=3000)
+        if ctx.quick() and len(b) > 12000:
+            # quick tier: a seeded sample of the deeper graph, the thorough tier replays all of it
+            g["sampled_from"] = len(b)
+            b = random.Random(ctx.seed).sample(b, 12000)
+            g["behaviours"] = len(b)
         behs += b
         g["cfg"] = "%s/MaxCid=%d" % (lim, mc)
         stats.append(g)
@@ -231,3 +238,49 @@ def selftest(ctx, pid):
         ok &= viol
     log("SELFTEST %s" % ("ok" if ok else "FAILED"))
     return 0 if ok else 2
+
+
+# ----------------------------------------------------------------------------- real-network part (C05)
+
+def net_classify(seg, idx, reason):
+    """Signature of a violation seen on real nodes. A silence on a node with an outgoing limit that
+    had more dials in flight than the limit allows is the known limit-rejection defect."""
+    hdr = json.loads(seg[0])
+    slug = "net-" + reason.split(":")[0].replace(" ", "-")[:50]
+    if not reason.startswith("silence"):
+        return slug
+    max_out = hdr.get("cfg", {}).get("maxOut", -1)
+    pend, est_out, over = set(), set(), False
+    for ln in seg[1:idx]:
+        d = json.loads(ln)
+        if d.get("e") == "cmd" and d.get("k") in ("dial", "dial_addr") and d.get("ret") == "ok":
+            pend.add(d["peer"])
+            if max_out >= 0 and len(pend) + len(est_out) > max_out:
+                over = True
+        elif d.get("e") == "ev" and d["k"] == "est":
+            pend.discard(d["peer"])
+            if d.get("dir") == "out":
+                est_out.add(d["peer"])
+        elif d.get("e") == "ev" and d["k"] == "closed":
+            est_out.discard(d["peer"])
+        elif d.get("e") == "ev" and d["k"] in ("dial_failure", "list_failures"):
+            for p in d["peers"]:
+                pend.discard(p)
+    return "outbound-established-rejected-by-limit" if over else slug
+
+
+def net_pipeline(ctx):
+    worlds, steps = (24, 14) if ctx.quick() else (400, 18)
+    cargo_build(ctx, ["netdial"])
+    summ, _ = harness(ctx, "netdial", ["--worlds", worlds, "--steps", steps, "--seed", ctx.seed, "--out", ctx.path("net.ndjson")], timeout=3000)
+    log("NET: %s" % summ)
+    lines = read_lines(ctx.path("net.ndjson"))
+    nseg, nev, rejects = validate_all(ctx, "NetDial.tla", "NetDial.cfg", lines, tag="n")
+    viol = []
+    for r in rejects:
+        seg, idx = r
+        sig = net_classify(seg, idx, r.reason)
+        viol.append({"sig": sig, "what": "real TCP nodes: %s (node log %s)" % (r.reason, seg[0][:200]),
+                     "replay_obj": {"property": "C05", "net": True, "reason": r.reason, "signature": sig,
+                                    "segment": [json.loads(x) for x in seg[:idx]]}})
+    return summ, nseg, nev, viol
